@@ -21,6 +21,9 @@ pub fn oracle(sc: &Scenario, obs: &mut Obs) -> CaseResult {
     let s = check_recovery(sc, &out, &RecoveryOpts { check_c09: false, check_c10: true }, obs)?;
     obs.class_if(s.congestion_limited_seen, "congestion-limited");
     obs.class_if(s.losses > 0, "loss");
+    obs.class_if(s.losses_inside_recovery > 0, "loss-inside-recovery-period");
+    obs.class_if(s.recovery_periods > 1, "recovery-periods>1");
+    obs.class_if(s.over_window_sends > 0, "over-window-send-with-allowance");
     obs.class_if(matches!(sc.server.cc, crate::scenario::Cc::Bbr) || sc.clients.iter().any(|c| matches!(c.endpoint.cc, crate::scenario::Cc::Bbr)), "bbr");
     obs.nontrivial(s.congestion_limited_seen && s.losses > 0);
     obs.sample = Some(serde_json::json!({
